@@ -96,10 +96,15 @@ def to_spec(v, agg):
         return ['c', [[to_spec(x[0], None), x[1]] for x in v]]
     if v is None:
         return ['n']
+    if isinstance(v, bool):
+        return ['b', v]
     if isinstance(v, float):
         f = exact(v)
         return ['q', f.numerator, f.denominator]
-    return ['i', v]
+    if isinstance(v, int):
+        return ['i', v]
+    # anything else is not a value the definition can produce here: a well-typed tag, so that the comparison fails instead of the checker
+    return ['t', str(v)]
 
 
 def run_join(src, tgt, mode, agg, shape_variant, source_delete, wildcard):
